@@ -20,11 +20,18 @@ theorem C16_unknown_device (E : BlockCipher) (q : Req) (c : Conf) (h : c.device 
 /-- wrong MIC on a join-request -/
 theorem C16_wrong_mic (E : BlockCipher) (q : Req) (c : Conf) (nwkKey appKey : Bytes) (nonce : Int) (phy : PHY) (netID joinEUI : Nat)
     (je de : BitVec 64) (dn : BitVec 16)
-    (hr : q.rejoin = false) (hd : c.device = some (nwkKey, appKey, nonce)) (hp : PHY.dec q.phy = ok phy) (hn : idOfText 3 q.sender = ok netID)
+    (hr : q.rejoin = false) (hd : c.device = some (nwkKey, appKey, nonce)) (hlf : c.lookupFails = false)
+    (hp : PHY.dec q.phy = ok phy) (hn : idOfText 3 q.sender = ok netID)
     (hj : idOfText 8 q.receiver = ok joinEUI) (hpl : phy.payload = some (.joinReq je de dn))
     (hm : validateMIC phy (calcUplinkJoinMIC E nwkKey phy) = ok false) :
     (serve E q c).result = "MICFailed" ∧ (serve E q c).code = 200 :=
-  serve_wrong_mic E q c nwkKey appKey nonce phy netID joinEUI je de dn hr hd hp hn hj hpl hm
+  serve_wrong_mic E q c nwkKey appKey nonce phy netID joinEUI je de dn hr hd hlf hp hn hj hpl hm
+
+/-- a key-encryption-key / label lookup that fails (the configuration callbacks return an error) never yields Success: no
+join-accept and no session keys are handed out -/
+theorem C16_lookup_failure (E : BlockCipher) (q : Req) (c : Conf) (d : Bytes × Bytes × Int) (hd : c.device = some d) (hlf : c.lookupFails = true) :
+    (serve E q c).result = "Other" ∧ (serve E q c).code = 500 ∧ (serve E q c).phy = [] ∧ (serve E q c).appSKey = none ∧ (serve E q c).nwkSKey = none :=
+  serve_lookup_fails E q c d hd hlf
 
 /-- JOIN-REQUEST with a correct MIC for a known device: Success; the device decrypts the join-accept (aes128_encrypt under NwkKey)
 to exactly JoinNonce | NetID | requested DevAddr | DLSettings | RxDelay | CFList, its MIC verifies (1.0 form under NwkKey, or 1.1 form
